@@ -65,7 +65,8 @@ Definition surfsource_mesh (src : mesh) (cond : F) (b : nat * Z * bool) : list (
   let coeffN := fmul o (signed inside K) (fofZ o orient) in
   let i0 := front_ix m in let j0 := front_ix src in
   let B := S_off o Sk (bset i0 j0) sempty (f1 o) (mtris m) (mtris src) in
-  N_off_w coeffN (bget o i0 j0 B) m src ++ D_block_w Dk (fmul o coeffN L) (mtris m) (mtris src).
+  N_off_w coeffN (bget o i0 j0 B) m src ++
+  (if mbarrier m then [] else D_block_w Dk (fmul o coeffN L) (mtris m) (mtris src)).   (* guard: fix in assembleSourceMat.cpp *)
 Definition surfsource_writes (src : mesh) (cond : F) (bnds : list (nat * Z * bool)) : list (write F) :=
   flat_map (surfsource_mesh src cond) bnds.
 Definition surfsource (src : mesh) (cond : F) (bnds : list (nat * Z * bool)) : store F :=
